@@ -39,6 +39,9 @@ pub struct DriveOpts {
     /// number of sweep sessions: together they deliver every corpus item and directed seed
     /// (twice each, under two contexts), so systematic seeds never depend on sampling
     pub sweep: u64,
+    /// the sweep sessions and the first N ordinary sessions also write (request, output) pairs
+    /// to <out>/dump/<idx>.jsonl for the rustc-parser engine
+    pub dump_sessions: u64,
 }
 
 #[derive(Clone, Debug, Serialize, Deserialize)]
@@ -146,6 +149,9 @@ fn spawn_session(exe: &Path, o: &DriveOpts, idx: u64) -> std::io::Result<Child> 
     if o.step_log {
         c.arg("--step-log");
     }
+    if o.dump_sessions > 0 && (idx >= crate::session::SWEEP_BASE || idx < o.first_session + o.dump_sessions) {
+        c.arg("--dump").arg(o.out.join("dump").join(format!("{idx}.jsonl")));
+    }
     c.env_clear()
         .current_dir(&o.out)
         .stdin(Stdio::null())
@@ -162,6 +168,7 @@ pub fn load_pool_inputs(repo: &Path) -> Result<(Corpus, Vec<Request>), String> {
 pub fn drive(o: &DriveOpts) -> Result<DriveSummary, String> {
     let t0 = Instant::now();
     std::fs::create_dir_all(o.out.join("sessions")).map_err(|e| e.to_string())?;
+    std::fs::create_dir_all(o.out.join("dump")).map_err(|e| e.to_string())?;
     std::fs::create_dir_all(&o.replays).map_err(|e| e.to_string())?;
     let exe = std::env::current_exe().map_err(|e| e.to_string())?;
     let (corpus, dir) = load_pool_inputs(&o.repo)?;
